@@ -50,6 +50,16 @@ bitflags! {
     }
 }
 
+/// Verification hook: `xgetbv` executes natively in user mode, so under
+/// `--cfg x86_64_verif` an emulating harness can substitute the value of XCR0 that its
+/// `xsetbv` emulation maintains (only while `VERIF_XCR0_EMULATED` is set).
+#[cfg(x86_64_verif)]
+pub static VERIF_XCR0: core::sync::atomic::AtomicU64 = core::sync::atomic::AtomicU64::new(0);
+/// Verification hook: enables the `VERIF_XCR0` overlay.
+#[cfg(x86_64_verif)]
+pub static VERIF_XCR0_EMULATED: core::sync::atomic::AtomicBool =
+    core::sync::atomic::AtomicBool::new(false);
+
 #[cfg(all(feature = "instructions", target_arch = "x86_64"))]
 mod x86_64 {
     use super::*;
@@ -65,6 +75,10 @@ mod x86_64 {
         /// Read the current raw XCR0 value.
         #[inline]
         pub fn read_raw() -> u64 {
+            #[cfg(x86_64_verif)]
+            if VERIF_XCR0_EMULATED.load(core::sync::atomic::Ordering::SeqCst) {
+                return VERIF_XCR0.load(core::sync::atomic::Ordering::SeqCst);
+            }
             unsafe {
                 let (low, high): (u32, u32);
                 asm!(
